@@ -119,13 +119,16 @@ inductive VKind where
   | plain | fstr (vars : Nat) | other
   deriving DecidableEq, Repr
 
-/-- `concatStrings(lhs, rhs)` reduced to kinds. -/
-def concatKinds : VKind → VKind → Except PErr VKind
+/-- `concatStrings(lhs, rhs)` reduced to kinds.  `guard`: the "plain string, then f-string" branch tests
+    `len(rhs.FString.Vars) == 0` before it touches `Vars[0]` (a regenerated fact; false before the fix). -/
+def concatKindsWith (guard : Bool) : VKind → VKind → Except PErr VKind
   | .fstr m, .fstr n => .ok (if n = 0 then .fstr m else .fstr (m + n))
   | .fstr m, .plain => .ok (.fstr m)
-  | .plain, .fstr n => if n = 0 then .error (.runtime 0) else .ok (.fstr n)   -- rhs.FString.Vars[0]
+  | .plain, .fstr n => if n = 0 ∧ guard = false then .error (.runtime 0) else .ok (.fstr n)   -- rhs.FString.Vars[0]
   | .plain, .plain => .ok .plain
   | _, _ => .error (.runtime 1)                                                 -- String[1:len-1] of ""
+
+def concatKinds : VKind → VKind → Except PErr VKind := concatKindsWith C19.concatGuardsBareFString
 
 /-- `findBrace`: index of the next `{` that opens a variable (`{{` and `${` do not). -/
 def findBrace : List UInt8 → UInt8 → Nat → Option Nat
